@@ -18,7 +18,10 @@
     the one the specification computes.  Executions rejected by the intended behaviour are validated once more with
     the deviation enabled: accepted only then = KNOWN-FINDING, rejected even then = VIOLATION.
 
-(D) the BLE flavour: spec/cfgcache/BleCfg.tla (every operation compares the held number with the advertised one and
+(D) the CoAP flavour: the real CoAPPairing (CoAPController.load_pairing; same algorithm, its own _ensure_connected: the
+    first call that finds no connection connects, the others wait for it, it alone runs the availability listeners)
+    over a stand-in for CoAPHomeKitConnection, same module with Flavour = "coap", same two passes.
+(E) the BLE flavour: spec/cfgcache/BleCfg.tla (every operation compares the held number with the advertised one and
     re-reads the GATT database if they differ; the label of what was fetched) with the same properties; the real
     BlePairing (BleController.load_pairing, advertisements through BleController._device_detected; the Bluetooth side
     below the configuration logic replaced by a subclass whose database fetch is one suspension) is driven along
@@ -57,6 +60,10 @@ FL = {
                sig="extcfg-live-listener-set-iteration",
                devtext="the deviation live_iter (a listener that unregisters itself inside its callback breaks the round: RuntimeError "
                        "from the live-set iteration)"),
+    "coap": dict(mod="cfgcache/CfgCache", tmod="cfgcache/CfgCache_Trace", intended="CfgCache_Trace_coap.cfg", dev="CfgCache_Trace_coap_dev.cfg",
+                 sig="extcfg-live-listener-set-iteration",
+                 devtext="the deviation live_iter (a listener that unregisters itself inside its callback breaks the round: RuntimeError "
+                         "from the live-set iteration)"),
     "ble": dict(mod="cfgcache/BleCfg", tmod="cfgcache/BleCfg_Trace", intended="BleCfg_Trace.cfg", dev="BleCfg_Trace_dev.cfg",
                 sig="extcfg-ble-label-read-after-fetch",
                 devtext="the deviation late_label (BlePairing files the GATT database it fetched under description.config_num read AFTER "
@@ -135,14 +142,14 @@ def _world_params(params, rid, k, flavour="ip"):
     p = dict(params)
     p["tag"] = rid
     p["cache_kind"] = "file" if k % 3 == 2 else "mem"
-    p["cbase"] = (CBASES if flavour == "ip" else D.BLE_CBASES)[k % 4]
+    p["cbase"] = (D.BLE_CBASES if flavour == "ble" else CBASES)[k % 4]
     p["flavour"] = flavour
     return p
 
 
 def _run(params, steps, rid, src, tmpdir=None, drain=True):
     from harness import cfgcache_driver as D
-    fn = D.run_ble_steps if params.get("flavour") == "ble" else D.run_steps
+    fn = {"ble": D.run_ble_steps, "coap": D.run_coap_steps}.get(params.get("flavour"), D.run_steps)
     r = fn(params, steps, rid=rid, src=src, tmpdir=tmpdir, drain=drain)
     r["flavour"] = params.get("flavour", "ip")
     return r
@@ -160,15 +167,15 @@ def _run_behaviour(args):
 
 # ------------------------------------------------------------------ seeded random schedules
 def _random_schedule(args):
-    seed, rid, k = args
+    seed, rid, k, fl = args
     from harness import cfgcache_driver as D
     rng = random.Random(seed)
     accv0 = rng.choice([1, 1, 2, 3])
     a0 = rng.choice([0, 0] + list(range(1, accv0 + 1)))
     c0 = rng.choice([0] + list(range(1, a0 + 1))) if a0 else 0          # 0: legacy entry without config_num
-    params = _world_params({"accv0": accv0, "cache0": 10 * c0 + a0}, rid, k)
+    params = _world_params({"accv0": accv0, "cache0": 10 * c0 + a0}, rid, k, fl)
     tmp = tempfile.mkdtemp(prefix="extcfg_w_") if params["cache_kind"] == "file" else None
-    w = D.World(cache0=params["cache0"], accv0=accv0, tag=rid, cache_kind=params["cache_kind"], tmpdir=tmp, cbase=params["cbase"])
+    w = (D.CoapWorld if fl == "coap" else D.World)(cache0=params["cache0"], accv0=accv0, tag=rid, cache_kind=params["cache_kind"], tmpdir=tmp, cbase=params["cbase"])
     try:
         style = rng.choice(["mixed", "mixed", "cfg", "flaky", "listeners", "restart"])
         ids = D.LISTENERS if k % 2 else tuple(i for i in D.LISTENERS if i not in D.ONESHOT)      # half without one-shot listeners
@@ -187,7 +194,8 @@ def _random_schedule(args):
             o = w.events[-1]["obs"] if w.events else w.obs()
             inflight = c.waiting + len(c.pending)
             lo = max(o["pdesc"], o["pcfg"], o["pacc"], 1)
-            can = {"db": w.accv < D.MAXV, "desc": inflight < 10, "linkup": not c.up, "linkdown": c.up, "tick": True,
+            can = {"db": w.accv < D.MAXV, "desc": inflight < 10, "linkdown": c.up, "tick": True,
+                   "linkup": not c.up and (fl != "coap" or c.connecting is not None),
                    "reply": bool(c.pending) and not c.pending[0].replied, "deliver": bool(c.pending) and c.pending[0].replied,
                    "list": inflight < 6, "pop": inflight < 6, "restore": inflight == 0 and lo <= w.accv and o["pacc"] >= 0 and o["pcfg"] >= -1,
                    "reg": True, "unreg": any(w.handles[r] for r in D.REGS), "restart": w.gen < 3}
@@ -214,7 +222,7 @@ def _random_schedule(args):
                 w.apply((op,))
         w.drain()
         r = w.record(rid, "random")
-        r["flavour"] = "ip"
+        r["flavour"] = fl
         return r
     finally:
         w.close()
@@ -545,11 +553,12 @@ def run(ctx):
             ctx.tlc(MOD, "CfgCache_MC.cfg", label="coherence: 3 versions, 3 calls in flight, descriptions in any order, restart, restore, garbage", timeout=900, **INV_ONLY)
             ctx.tlc(MOD, "CfgCache_MCm.cfg", label="descriptions in order: caught-up / no label rollback, populate forced and not", timeout=900, **INV_ONLY)
             ctx.tlc(MOD, "CfgCache_MCl.cfg", label="listeners: 3 registries x {plain, one-shot}, calls waiting for the connection", timeout=900, **INV_ONLY)
+            ctx.tlc(MOD, "CfgCache_MCc.cfg", label="CoAP flavour of _ensure_connected: listeners, calls waiting for the connect", timeout=900, **INV_ONLY)
             ctx.tlc("cfgcache/BleCfg", "BleCfg_MC.cfg", label="BLE: 3 versions, 3 operations, advertisements in any order, 2 state numbers, restart (vacuity guard on)", timeout=900)
             ctx.tlc("cfgcache/BleCfg", "BleCfg_MCm.cfg", label="BLE: advertisements in order: caught-up", timeout=900, **INV_ONLY)
             if ctx.thorough:
                 ctx.tlc(MOD, "CfgCache_MCt.cfg", label="thorough: 3 versions, 3 calls, 2 registries x {plain, one-shot}, restart", timeout=3000, **INV_ONLY)
-                ctx.tlc(MOD, "CfgCache_MCt2.cfg", label="thorough: 4 versions, 4 calls in flight, 3 pairing objects", timeout=3000, **INV_ONLY)
+                ctx.tlc(MOD, "CfgCache_MCt2.cfg", label="thorough: 4 versions, 4 calls in flight, 2 pairing objects", timeout=3000, **INV_ONLY)
                 ctx.tlc("cfgcache/BleCfg", "BleCfg_MCt.cfg", label="thorough BLE: 4 versions, 4 operations, 3 pairing objects", timeout=3000, **INV_ONLY)
         pool_a = ThreadPoolExecutor(1)
         fut_a = pool_a.submit(design)
@@ -560,30 +569,34 @@ def run(ctx):
         # ---------------- (B) behaviours
         jobs_b = _behaviours(ctx, "ip", "CfgCache_sim.cfg", tmp, ctx.pick(500, 5000), ctx.pick(32, 48))
         jobs_bb = _behaviours(ctx, "ble", "BleCfg_sim.cfg", tmp, ctx.pick(200, 2000), ctx.pick(26, 40))
-        nrand, nble = ctx.pick(2500, 40000), ctx.pick(800, 12000)
-        jobs_r = [(ctx.seed * 1000003 + i, f"rnd{i}-{ctx.seed}", i) for i in range(nrand)]
+        jobs_bc = _behaviours(ctx, "coap", "CfgCache_simc.cfg", tmp, ctx.pick(150, 1500), ctx.pick(32, 48))
+        nrand, nble, ncoap = ctx.pick(2500, 40000), ctx.pick(800, 12000), ctx.pick(600, 8000)
+        jobs_r = [(ctx.seed * 1000003 + i, f"rnd{i}-{ctx.seed}", i, "ip") for i in range(nrand)]
+        jobs_rc = [(ctx.seed * 1000211 + 3 * i + 2, f"coap-rnd{i}-{ctx.seed}", i, "coap") for i in range(ncoap)]
         jobs_rb = [(ctx.seed * 1000033 + 7 * i + 1, f"ble-rnd{i}-{ctx.seed}", i) for i in range(nble)]
         with mp.get_context("fork").Pool(min(16, os.cpu_count() or 4)) as pool:
             recs = pool.map(_run_behaviour, jobs_b, chunksize=8)
             recs += pool.map(_random_schedule, jobs_r, chunksize=8)
             brecs = pool.map(_run_behaviour, jobs_bb, chunksize=8)
             brecs += pool.map(_random_ble_schedule, jobs_rb, chunksize=8)
+            crecs = pool.map(_run_behaviour, jobs_bc, chunksize=8)
+            crecs += pool.map(_random_schedule, jobs_rc, chunksize=8)
         recs += [wit] + [c[0] for c in ces]
         brecs += [c[0] for c in ces_b]
-        evs = [e for r in recs + brecs for e in r["events"]]
+        evs = [e for r in recs + brecs + crecs for e in r["events"]]
         cnt = lambda k, ok=None: sum(o[3] for e in evs for o in e["out"] if o[0] == k and (ok is None or o[2] == ok))  # noqa: E731
-        ctx.notes["behaviours_replayed"] = {"ip": len(jobs_b), "ble": len(jobs_bb)}
-        ctx.notes["random_schedules"] = {"ip": nrand, "ble": nble}
+        ctx.notes["behaviours_replayed"] = {"ip": len(jobs_b), "ble": len(jobs_bb), "coap": len(jobs_bc)}
+        ctx.notes["random_schedules"] = {"ip": nrand, "ble": nble, "coap": ncoap}
         ctx.notes["events"] = len(evs)
         ctx.notes["config_change_tasks"] = {"started": cnt("cfgtask"), "completed": cnt("cfgend", 1), "failed": cnt("cfgend", 0)}
         ctx.notes["listener_calls"] = {k: cnt(k) for k in ("notify", "avail", "event")}
         ctx.notes["ble_database_fetches"] = cnt("fetch")
         ctx.notes["cache_writes"] = sum(len(e["saves"]) for e in evs)
         ctx.notes["restarts"] = sum(1 for e in evs if e["ev"] == "restart")
-        ctx.notes["file_cache_executions"] = sum(1 for r in recs + brecs if r["cache_kind"] == "file")
+        ctx.notes["file_cache_executions"] = sum(1 for r in recs + brecs + crecs if r["cache_kind"] == "file")
         ctx.notes["stimuli"] = {k: sum(1 for e in evs if e["ev"] == k) for k in sorted({e["ev"] for e in evs})}
         ctx.notes["misplaced_calls"] = sum(1 for e in evs for o in e["out"] if o[0] in ("ghost", "raised", "badreq"))
-        for r in recs + brecs:
+        for r in recs + brecs + crecs:
             nontrivial = any(o[0] in ("cfgtask", "saved") for e in r["events"] for o in e["out"])
             ctx.case(json.dumps([r["flavour"], _trim(r)["events"]], sort_keys=True) if nontrivial else None)
         # ---------------- (C) verdict
@@ -593,11 +606,13 @@ def run(ctx):
         kb, bb = _validate(ctx, "ble", brecs, "trace validation BleCfg_Trace", tmp)
         _confirm_findings(ctx, "ble", ces_b, kb, bb)
         _report_known(ctx, "ble", kb, f"of {len(brecs)} BLE executions")
-        _report(ctx, bad + bb)
+        kc, bc = _validate(ctx, "coap", crecs, "trace validation CfgCache_Trace (CoAP flavour)", tmp)
+        _report_known(ctx, "coap", kc, f"of {len(crecs)} CoAP executions")
+        _report(ctx, bad + bb + bc)
         fut_a.result()          # the exhaustive runs (a violation there has been reported by ctx.tlc; a machinery failure is raised here)
         pool_a.shutdown()
-        bad_ids = {b[0]["id"] for b in bad + bb}
-        for fl, rs in (("ip", recs), ("ble", brecs)):
+        bad_ids = {b[0]["id"] for b in bad + bb + bc}
+        for fl, rs in (("ip", recs), ("ble", brecs), ("coap", crecs)):
             for src in ("behaviour", "random"):
                 for r in rs:
                     if r["src"] == src and r["id"] not in bad_ids and any(o[0] == "notify" for e in r["events"] for o in e["out"]):
